@@ -358,6 +358,16 @@ def _check_repo(fa, res, tmpdir, n, es, kinds, ns, real, seen, tier, layout="pla
                     break
         finally:
             os.chdir(here)
+        # the other documented call style: the root given by NAME together with an explicit repository
+        res.evals += 1
+        try:
+            from fastavro.repository.flat_dict import FlatDictRepository
+
+            c4 = canon_of(fa, fa.schema.load_schema(root, repo=FlatDictRepository(d)))
+        except Exception as e:
+            c4 = f"raised {type(e).__name__}: {e}"
+        if c4 != want_canon:
+            res.add(Violation("c19.load", "explicit-repo-differs", f"load_schema({root!r}, repo=FlatDictRepository(dir)) -> {c4[:200]!r} | {short(info, 300)}", dict(info, path_spelling="explicit-repo")))
     data = [x for x, c in alphabet.data_for(node, defs, 1, hints=False, big=False)][:12]
     for x in data:
         res.evals += 1
